@@ -224,6 +224,12 @@ fn simpler_programs(p: &Program) -> Vec<Program> {
         for k in 0..th.ops.len() {
             let simpler = match &th.ops[k] {
                 Op::SetIfNotEq(v) => Some(Op::Set(*v)),
+                Op::SetIfHashNotEq(v) => Some(Op::SetIfNotEq(*v)),
+                Op::TryWriteRmw(t) => Some(Op::WriteRmw(*t)),
+                Op::TryRead => Some(Op::ReadHold),
+                Op::SubNextRefNow => Some(Op::SubNextNow),
+                Op::PollNextRef => Some(Op::PollOnce),
+                Op::SubCloneReset => Some(Op::SubClone),
                 Op::Take => Some(Op::Set(7)),
                 Op::UpdateIf(t, _) => Some(Op::Update(*t)),
                 Op::WriteRmw(t) => Some(Op::Update(*t)),
